@@ -2,6 +2,7 @@
 
 (a) the size arithmetic of every compiler function that narrows a count (props/c10casts.py): no feasible arithmetic panic and no
     silent truncation for ANY literal / argument / parameter / template size (the "300-element array literal panics" clause);
+(a'') RegisterAllocator::{alloc, free, reserve_range, save, restore} never panic from ANY allocator state (props/c10.py kernel (a));
 (a') compile_enum_declaration never panics for any numeric literal initialiser (props/c04.py kernel);
 (b) lexer punctuation/whitespace kernel - see props/lexk.py (thorough tier, when present).
 The parser (recursion depth, speculative re-parsing cost) is outside the claim.
@@ -40,6 +41,24 @@ def run(rep):
             rep.violation(key.replace('C04/', 'C05/'), what, p)
     for m in sub.inconclusive:
         rep.inconc('[enum kernel] ' + m)
+    # register allocator: only the panic obligations count here (the range/overlap obligations belong to C10)
+    from . import c10
+    sub2 = driver.Report('C10', rep.tier, rep.seed)
+    c10.check_allocator(sub2, cross)
+    rep.paths += sub2.paths
+    rep.queries += sub2.queries
+    rep.solver_s += sub2.solver_s
+    rep.validated += sub2.validated
+    rep.functions |= sub2.functions
+    rep.models |= sub2.models
+    rep.havoc |= sub2.havoc
+    for o in sub2.obligations:
+        rep.obligations.append(dict(o, obligation='[register allocator] ' + o['obligation']))
+    for key, what, p in sub2.violations:
+        if 'panic' in what or 'panic' in key:
+            rep.violation(key.replace('C10/', 'C05/'), what + ' (reached from prepare() through the compiler\'s register reservations)', p)
+    for m in sub2.inconclusive:
+        rep.inconc('[register allocator] ' + m)
     try:
         from . import lexk
         lexk.check(rep, cross, 'C05')
